@@ -13,6 +13,17 @@
 //!
 //! The background is rebuilt from the 5 counts with `Background::from_counts` (the only public
 //! constructor that accepts every frequency vector used here); the bits are what the model reads.
+//!
+//! Alternative entry points (`alt`, shared with C13; oracle only, case lines and answers unchanged):
+//! on the cases whose input hash is 0 mod 3 the object is also built through `TfmPvalue::from(&pssm)`,
+//! `(&pssm).into()` and `TfmPvalue::new(pssm)` by value (same permutation, same iterations bit for
+//! bit); `as_inner()` / `into_inner()` give the matrix back, before and after queries; the
+//! convenience methods `pvalue(s)` / `score(p)` answer like the last element of
+//! `approximate_pvalue(s)` / `approximate_score(p)` (asked only when the main run converged within
+//! `maxit`); ONE object answering a sequence of queries of both kinds (the query of the case, the
+//! other direction, the query again, far below / above the attainable range) answers each like a
+//! fresh object (exact parts equal, probabilities within 1e-9 relative: the hash maps of a reused
+//! object keep their capacity, hence another summation order).
 use crate::out::*;
 use crate::rng::Rng;
 use crate::Cfg;
@@ -138,7 +149,7 @@ pub struct Obs {
 }
 
 /// the row permutation, read through the derived `Debug` impl (the only public view of it)
-fn perm_of_debug(s: &str) -> Vec<usize> {
+pub fn perm_of_debug(s: &str) -> Vec<usize> {
     let k = s.find("permutation: [").expect("no permutation field in Debug output") + "permutation: [".len();
     let e = k + s[k..].find(']').unwrap();
     s[k..e]
@@ -561,6 +572,164 @@ pub fn oracle_c12(inp: &Input, ex: &Exact, obs: &Obs) -> Result<(), String> {
 }
 
 // ------------------------------------------------------------------------------------------
+// alternative entry points (C12 and C13)
+// ------------------------------------------------------------------------------------------
+
+/// hash of the input part of a case line (what the implementation answered is not part of it)
+pub fn input_hash(inp: &Input) -> u64 {
+    fnv_nats(inp.mat.iter().flatten().map(|x| *x as usize).chain(inp.counts.iter().cloned()).chain([inp.q as usize, inp.maxit]))
+}
+
+/// one query put to an object: `pv` = `approximate_pvalue(q)`, otherwise `approximate_score(q)`,
+/// at most `maxit` steps
+#[derive(Clone, Copy, Debug)]
+pub struct Ask {
+    pub pv: bool,
+    pub q: f64,
+    pub maxit: usize,
+}
+
+fn ask<M: AsRef<ScoringMatrix<Dna>>>(t: &mut TfmPvalue<Dna, M>, a: Ask) -> (Vec<It>, bool) {
+    let mut its: Vec<It> = Vec::new();
+    let r = guarded(|| {
+        let mut push = |x: lightmotif_tfmpvalue::Iteration| its.push(It { g: x.granularity, score: x.score, start: *x.range.start(), end: *x.range.end(), conv: x.converged });
+        if a.pv {
+            // through the Iterator adaptors rather than bare `next`
+            t.approximate_pvalue(a.q).take(a.maxit).for_each(&mut push);
+        } else {
+            t.approximate_score(a.q).take(a.maxit).for_each(&mut push);
+        }
+    });
+    (its, r.is_err())
+}
+
+fn rel_eq(a: f64, b: f64) -> bool {
+    a.to_bits() == b.to_bits() || (a - b).abs() <= 1e-9 * a.abs().max(b.abs())
+}
+
+/// `exact`: bit for bit (two fresh objects); otherwise exact parts equal and numbers within 1e-9
+fn same_its(what: &str, a: &(Vec<It>, bool), b: &(Vec<It>, bool), exact: bool) -> Result<(), String> {
+    if a.1 != b.1 || a.0.len() != b.0.len() {
+        return Err(format!("{}: {} iterations (panic {}) but {} (panic {})", what, a.0.len(), a.1, b.0.len(), b.1));
+    }
+    for (i, (x, y)) in a.0.iter().zip(&b.0).enumerate() {
+        let same = if exact {
+            x.g.to_bits() == y.g.to_bits() && x.score.to_bits() == y.score.to_bits() && x.start.to_bits() == y.start.to_bits() && x.end.to_bits() == y.end.to_bits() && x.conv == y.conv
+        } else {
+            x.g.to_bits() == y.g.to_bits() && rel_eq(x.score, y.score) && rel_eq(x.start, y.start) && rel_eq(x.end, y.end) && x.conv == y.conv
+        };
+        if !same {
+            return Err(format!("{}: iteration {} is {:?} but {:?}", what, i, x, y));
+        }
+    }
+    Ok(())
+}
+
+/// `pvalue`: the case is a C12 case (query = score); otherwise a C13 case (query = p-value)
+pub fn alt(inp: &Input, obs: &Obs, pvalue: bool) -> Result<(), String> {
+    let pssm = inp.pssm();
+    let q = f64::from_bits(inp.q);
+    let main_ask = Ask { pv: pvalue, q, maxit: inp.maxit };
+    let main: (Vec<It>, bool) = (obs.its.clone(), obs.panicked);
+    // ---- the other constructors
+    {
+        let mut a = TfmPvalue::<Dna, &ScoringMatrix<Dna>>::from(&pssm);
+        let mut b: TfmPvalue<Dna, &ScoringMatrix<Dna>> = (&pssm).into();
+        let mut c = TfmPvalue::<Dna, ScoringMatrix<Dna>>::new(pssm.clone());
+        let mut d = TfmPvalue::<Dna, ScoringMatrix<Dna>>::from(pssm.clone());
+        if !std::ptr::eq(*a.as_inner(), &pssm) || !std::ptr::eq(*b.as_inner(), &pssm) || c.as_inner() != &pssm || d.as_inner() != &pssm {
+            return Err("as_inner() of a new object is not the matrix given".into());
+        }
+        for (name, perm) in [("From<&ScoringMatrix>", perm_of_debug(&format!("{:?}", a))), ("Into", perm_of_debug(&format!("{:?}", b))), ("new(matrix by value)", perm_of_debug(&format!("{:?}", c))), ("From<ScoringMatrix>", perm_of_debug(&format!("{:?}", d)))] {
+            if perm != obs.perm {
+                return Err(format!("{}: row permutation {:?} but TfmPvalue::new(&pssm) has {:?}", name, perm, obs.perm));
+            }
+        }
+        same_its("TfmPvalue::from(&pssm)", &ask(&mut a, main_ask), &main, true)?;
+        same_its("(&pssm).into()", &ask(&mut b, main_ask), &main, true)?;
+        same_its("TfmPvalue::new(pssm) by value", &ask(&mut c, main_ask), &main, true)?;
+        same_its("TfmPvalue::from(pssm) by value", &ask(&mut d, main_ask), &main, true)?;
+        // the matrix comes back unchanged after the queries
+        if !std::ptr::eq(*a.as_inner(), &pssm) || !std::ptr::eq(a.into_inner(), &pssm) || c.as_inner() != &pssm || c.into_inner() != pssm || d.into_inner() != pssm {
+            return Err("as_inner() / into_inner() after queries is not the matrix given".into());
+        }
+    }
+    // ---- the convenience methods run the same iteration to convergence: asked only when the main run
+    // converged within its bound (otherwise the number of steps is not bounded by the case)
+    if !obs.panicked && obs.its.last().map(|x| x.conv).unwrap_or(false) {
+        let last = obs.its.last().unwrap();
+        let mut t = TfmPvalue::new(&pssm);
+        let r = guarded(|| if pvalue { t.pvalue(q) } else { t.score(q) });
+        let want = if pvalue { last.start } else { last.score };
+        match r {
+            Ok(x) if x.to_bits() == want.to_bits() => {}
+            Ok(x) => return Err(format!("{}({:e}) = {:e} but the last (converged) iteration of the approximation has {:e}", if pvalue { "pvalue" } else { "score" }, q, x, want)),
+            Err(()) => return Err(format!("{}({:e}) panics although the approximation converges", if pvalue { "pvalue" } else { "score" }, q)),
+        }
+    }
+    if obs.panicked || obs.its.is_empty() {
+        return Ok(());
+    }
+    // ---- one object, several queries: each answered like a fresh object answers it
+    let first = &obs.its[0];
+    let last = obs.its.last().unwrap();
+    let (lo, hi) = {
+        // the attainable score range, from the matrix (f64 sums of row extremes over the four bases)
+        let cell = |i: usize, j: usize| f32::from_bits(inp.mat[i][j]) as f64;
+        let lo: f64 = (0..inp.m).map(|i| (0..4).map(|j| cell(i, j)).fold(f64::INFINITY, f64::min)).sum();
+        let hi: f64 = (0..inp.m).map(|i| (0..4).map(|j| cell(i, j)).fold(f64::NEG_INFINITY, f64::max)).sum();
+        (lo, hi)
+    };
+    // the other direction, fed with what the case's own answer suggests (an arbitrary real number, not a
+    // tail probability of the matrix: ties in `sum >= p` would depend on the summation order)
+    let other = if pvalue {
+        let p = 0.37 * first.start + 0.41 * last.end + 1.234567e-3;
+        Ask { pv: false, q: if p > 0.0 && p < 1.0 { p } else { 0.123456789 }, maxit: 3 }
+    } else {
+        Ask { pv: true, q: last.score, maxit: 3 }
+    };
+    let seq: Vec<Ask> = if pvalue {
+        vec![main_ask, other, main_ask, Ask { pv: true, q: lo - 1.5, maxit: 2 }, Ask { pv: true, q: hi + 1.5, maxit: 2 }, Ask { pv: true, q: (lo + hi) / 2.0 + 0.0123, maxit: 3 }, main_ask]
+    } else {
+        vec![main_ask, other, main_ask, Ask { pv: false, q: 1e-12, maxit: 2 }, Ask { pv: false, q: 1.0 - 1e-12, maxit: 2 }, Ask { pv: true, q: hi + 1.5, maxit: 2 }, Ask { pv: true, q: lo - 1.5, maxit: 2 }, main_ask]
+    };
+    let mut reused = TfmPvalue::new(&pssm);
+    for (k, a) in seq.iter().enumerate() {
+        let got = ask(&mut reused, *a);
+        let mut fresh_obj = TfmPvalue::new(&pssm);
+        let fresh = ask(&mut fresh_obj, *a);
+        same_its(&format!("query {} of a reused object ({} {:e}) vs a fresh object", k, if a.pv { "approximate_pvalue" } else { "approximate_score" }, a.q), &got, &fresh, false)?;
+        if k == 0 {
+            same_its("the query of the case asked of a second fresh object", &fresh, &main, true)?;
+        }
+        if got.1 {
+            // a panic may leave the object half-updated: nothing is claimed about later answers
+            break;
+        }
+    }
+    if !std::ptr::eq(reused.into_inner(), &pssm) {
+        return Err("into_inner() of a reused object is not the matrix given".into());
+    }
+    Ok(())
+}
+
+/// add the alternative-entry-point clause to the verdict of the main clause (when that one holds or
+/// has nothing to say)
+pub fn with_alt(o: Option<Result<(), String>>, inp: &Input, obs: &Obs, pvalue: bool) -> (Option<Result<(), String>>, bool) {
+    if matches!(o, Some(Err(_))) || input_hash(inp) % 3 != 0 {
+        return (o, false);
+    }
+    let r = match guarded(|| alt(inp, obs, pvalue)) {
+        Ok(r) => r.map_err(|e| format!("alternative entry point: {}", e)),
+        Err(()) => Err("alternative entry point: panic".into()),
+    };
+    match (o, r) {
+        (o, Ok(())) => (o, true),
+        (_, Err(e)) => (Some(Err(e)), true),
+    }
+}
+
+// ------------------------------------------------------------------------------------------
 // generators (shared with C13)
 // ------------------------------------------------------------------------------------------
 
@@ -824,8 +993,13 @@ pub fn exec(line: &str) -> (String, String, Option<Result<(), String>>, bool, us
         }
         None => (None, false),
     };
+    let (o, alt_run) = with_alt(o, &inp, &obs, true);
+    ALT_RUN.store(alt_run, std::sync::atomic::Ordering::Relaxed);
     (full, answer(&obs, false), o, nt, obs.its.len())
 }
+
+/// whether the last `exec` drove the alternative entry points (for the stats)
+pub static ALT_RUN: std::sync::atomic::AtomicBool = std::sync::atomic::AtomicBool::new(false);
 
 pub fn generate(cfg: &Cfg) -> Vec<(String, String)> {
     let mut rng = Rng::new(cfg.seed ^ 0xC12);
@@ -858,6 +1032,9 @@ pub fn run(cfg: &Cfg) {
         }
         out.stat(&format!("width/{}", Input::parse(c).1.m));
         out.stat(&format!("iterations/{}", n));
+        if ALT_RUN.load(std::sync::atomic::Ordering::Relaxed) {
+            out.stat("alternative-entry-points");
+        }
         if ans.contains("panic=1") {
             out.panics += 1;
         }
